@@ -323,6 +323,39 @@ func c09R4(c *Ctx) {
 		c.check(okDom, fname+"/success-after-loop", P.InstrPos(ret), fname,
 			"success is reachable only after the creators loop has finished (which runs after the fan-out joined)", "the post can be returned as genuine without the creators loop having completed (or before the creators were fetched)")
 	}
+	// the loop is left towards success only when it has run out of creators: no
+	// block of the loop other than its header (which holds the range test)
+	// leads out of the loop to a success return — a break would let the
+	// creators listed after it escape the check
+	inLoop := map[*ssa.BasicBlock]bool{}
+	for _, b := range fn.Blocks {
+		if header.Dominates(b) && (b == header || blockReaches(b, header)) {
+			inLoop[b] = true
+		}
+	}
+	reachesSuccess := func(from *ssa.BasicBlock) bool {
+		for _, b := range fn.Blocks {
+			if ret, ok := b.Instrs[len(b.Instrs)-1].(*ssa.Return); ok && isNilConst(ret.Results[1]) {
+				if from == b || blockReaches(from, b) {
+					return true
+				}
+			}
+		}
+		return false
+	}
+	early := ""
+	for b := range inLoop {
+		if b == header {
+			continue
+		}
+		for _, s := range b.Succs {
+			if !inLoop[s] && reachesSuccess(s) {
+				early = P.InstrPos(b.Instrs[len(b.Instrs)-1])
+			}
+		}
+	}
+	c.check(early == "", fname+"/creators-loop-complete", P.InstrPos(ta), fname, "the loop over the creators is left towards success only when every creator has been looked at",
+		"the loop over the creators can be left early (at "+early+") on the way to accepting the post: creators listed after that point are never checked against the post's host")
 	// every way back to the loop header from the isActor edge knows the hosts agree
 	okExt := extractOf(ta, 0)
 	actorPath := path(okExt)
